@@ -34,6 +34,7 @@ ASSUMPTIONS = [
     "tolerances: orthogonality 1e-10, residual comparisons 1e-9 relative, planted recovery 1e-8 (cond(X) <= 1e3)",
 ]
 RULE = RULE + " " + forms.RULE_SUFFIX
+RULE = RULE + " " + 'One case in 7 (not planted): whole-number features handed over with an integer dtype next to real-valued targets.'
 
 
 def gen(rng, tier, index):
